@@ -48,11 +48,11 @@ var answers = []answer{
 type wbounds struct{ minW, maxW time.Duration }
 
 var (
-	swBackoff = []time.Duration{1 * time.Millisecond, 250 * time.Millisecond}
-	swFactor  = []float64{1, 2, 10}
+	swBackoff = []time.Duration{250 * time.Millisecond, 1 * time.Millisecond}
+	swFactor  = []float64{2, 10, 1}
 	swJitter  = []float64{0, 0.1, 0.5, 1}
-	swBounds  = []wbounds{{0, 0}, {200 * time.Millisecond, 3 * time.Second}, {3 * time.Second, 200 * time.Millisecond}}
-	swMaxRet  = []int{0, 3, 71}
+	swBounds  = []wbounds{{200 * time.Millisecond, 3 * time.Second}, {0, 0}, {3 * time.Second, 200 * time.Millisecond}}
+	swMaxRet  = []int{71, 3, 0}
 )
 
 const swAttempts = 71 // attempt 0..70
@@ -71,9 +71,20 @@ func policyFrames(stack string) string {
 	return strings.Join(out, "\n")
 }
 
-func sweepJob(backoff time.Duration, factor float64) driver.Job {
-	name := fmt.Sprintf("policy-sweep/backoff=%v/factor=%v", backoff, factor)
+// sweepJob is a single job so that the first reported input per signature is the same in every run.
+func sweepJob() driver.Job {
+	name := "policy-sweep"
 	return driver.Job{Name: name, Run: func(c *driver.Ctx) {
+		for _, backoff := range swBackoff {
+			for _, factor := range swFactor {
+				sweep(c, name, backoff, factor)
+			}
+		}
+	}}
+}
+
+func sweep(c *driver.Ctx, name string, backoff time.Duration, factor float64) {
+	{
 		viol := func(sig, detail string) {
 			c.AddViolation(driver.Violation{Tier: c.Tier, Job: c.Job, Scenario: name, Sig: sig, Detail: detail})
 		}
@@ -138,7 +149,7 @@ func sweepJob(backoff time.Duration, factor float64) driver.Job {
 								c.Count("sweep_pauses_judged", 1)
 								c.Nontriv(driver.Hash("sweep", fmt.Sprint(backoff, factor, jitter, wb, attempt, a.name)))
 								c.Outcome(driver.Hash("pause", fmt.Sprint(d)))
-								if !sampled && attempt == 2 && a.honour == 0 && jitter > 0 {
+								if !sampled && attempt == 2 && a.honour == 0 && jitter > 0 && wb.minW > 0 && backoff > time.Millisecond && factor > 1 {
 									sampled = true
 									c.Sample(fmt.Sprintf("%s -> pause %v", in, d))
 								}
@@ -163,5 +174,4 @@ func sweepJob(backoff time.Duration, factor float64) driver.Job {
 				}
 			}
 		}
-	}}
-}
+	}
